@@ -81,4 +81,49 @@ def mapMarkToNumber (mask : Nat) (mark : Nat) : Option Nat :=
 def Mgr.currentFreeNumber (m : Mgr) : Nat :=
   if m.numFreeBits > 0 then 2 ^ m.numFreeBits else 0
 
+
+/-! ### Allocation sequences (what the property theorems quantify over)
+
+`NextSingleBitMark` and `NextBlockBitsMark(size)` are the only two operations
+that hand out bits; an allocation history is a list of them. -/
+
+/-- Number of mask bits, as counted by `NewMarkBitsManager`. -/
+def popcount (mask : Nat) : Nat := (positions mask).length
+
+/-- OR of the single-bit marks `2^p` for the listed positions. -/
+def orBits : List Nat → Nat
+  | [] => 0
+  | p :: ps => 2 ^ p ||| orBits ps
+
+inductive AllocOp where
+  | single
+  | block (size : Nat)
+deriving Repr, DecidableEq
+
+/-- What an allocation call returned. -/
+inductive Event where
+  | single (r : Option Nat)
+  | block (size mark n : Nat)
+deriving Repr, DecidableEq
+
+def Mgr.step (m : Mgr) : AllocOp → Mgr × Event
+  | .single => (m.nextSingle.1, .single m.nextSingle.2)
+  | .block k => ((m.nextBlock k 0 0).1, .block k (m.nextBlock k 0 0).2.1 (m.nextBlock k 0 0).2.2)
+
+def Mgr.run (m : Mgr) : List AllocOp → Mgr × List Event
+  | [] => (m, [])
+  | op :: ops => (((m.step op).1.run ops).1, (m.step op).2 :: ((m.step op).1.run ops).2)
+
+/-- The bits an event handed out (0 when it handed out nothing). -/
+def Event.mark : Event → Nat
+  | .single (some b) => b
+  | .single none => 0
+  | .block _ mark _ => mark
+
+/-- How many bits an event reports as allocated. -/
+def Event.count : Event → Nat
+  | .single (some _) => 1
+  | .single none => 0
+  | .block _ _ n => n
+
 end CalicoVerif.C35
